@@ -24,6 +24,8 @@ def scenarios(ctx: Ctx) -> List[Dict[str, Any]]:
     for k in range(ctx.pick(10, 60)):
         sc.append({"id": f"ties{base + k}", "src": "gen", "seed": 41000 + base + k, "steps": ctx.pick(60, 120),
                    "world_kwargs": {"focus": "ties"}, "mix": "builtin"})
+        if k % 2 == 1:
+            sc[-1]["dispatcher"] = {"charging_search_type": "shortest_time_to_charge"}      # the other station / plug ranking
     for k in range(ctx.pick(6, 40)):
         sc.append({"id": f"adv{base + k}", "src": "gen", "seed": 42000 + base + k, "steps": 50, "world_kwargs": {"fleets": True},
                    "mix": ["builtin+adv", "adv+builtin"][k % 2]})
